@@ -125,7 +125,9 @@ func genGoProject(t *rapid.T) GoProject {
 		p.Files = append(p.Files, renderGo(spec, prefix, name))
 	}
 	if rapid.IntRange(0, 3).Draw(t, "docFile") == 3 {
-		p.Extra = map[string]string{"pkg/stack/doc.go": "// Package stack is documented here.\npackage stack\n"}
+		// the first or a later file of the walk
+		path := []string{"aaa_doc.go", "pkg/stack/doc.go"}[rapid.IntRange(0, 1).Draw(t, "docFileName")]
+		p.Extra = map[string]string{path: "// Package stack is documented here.\npackage stack\n"}
 	}
 	if rapid.IntRange(0, 1).Draw(t, "cliOptionDrawn") == 1 {
 		p.CliForm = rapid.IntRange(0, 4).Draw(t, "cliForm")
@@ -486,19 +488,20 @@ func checkPyCLI(p PyProject) pbt.Verdict {
 
 func init() {
 	pbt.SetProperty("C20")
-	pbt.Describe("rapid-generated sources with ground truth. Go files: package clause, 0-4 imports (plain, alias, dot, blank; single or grouped), 1-4 structs with 0-4 fields of ident / pointer / slice / selector / func types (incl. `a, b T` and tags), 0-2 interfaces with 1-3 methods, 0-3 methods per struct on value / pointer / unnamed receivers, 0-3 top-level functions with named, grouped or unnamed parameters and results, bodies of X.F() call statements on packages, receivers and parameters, defer, assignments, unqualified calls, declarations and returns; declarations in usual or shuffled order (methods before their type) or in one type(...) group; every text is checked with go/parser. Python modules: 0-4 imports (import a.b / as c / from x import y, z / parenthesised), 0-4 classes (bases, docstring, attributes, 0-4 methods), 0-3 functions, decorators with and without arguments on all three, nested defs, async def, three indentation styles, main guard; texts the shipped Python parser rejects are skipped and counted. Oracles: each struct / interface / class exactly once under its own name with its fields (name, type kind, type text), method set, decorators; each top-level function once with its parameters; each import once (source, alias); each X.F() call statement recorded as often as written; nested defs tolerated as extra entries. Entry points: CocagoParser.ProcessString / ProcessFile, GoIdentApp.Analysis / IdentAnalysis, PythonIdentApp.Analysis, analysis.CommonAnalysis, and the binaries of analysis/golang and analysis/python (godeps.json / pydeps.json). go_any / py_any add constructs outside the modelled subset and assert crash-freedom only. Non-trivial: Go: >= 2 type declarations of which >= 2 have methods; Python: >= 2 classes and >= 1 decorated definition; *_any: >= 2 extra constructs. Distinct = hash of the case.",
-		"type texts follow the model's own convention as pinned by the repository's golden files: element name without * or [], `func` for function types, TypeType Identify/Star/ArrayType/Function/empty",
+	pbt.Describe("rapid-generated sources with ground truth. Go files: package clause, 0-4 imports (plain, alias, dot, blank; single or grouped; pairs of paths with the same last element), 1-4 structs with 0-4 fields of ident / pointer / slice / selector / func types (incl. `a, b T`, tags and embedded fields), type names that are a prefix or a suffix of another type name, 0-2 interfaces with 0-3 methods, 0-3 methods per struct on value / pointer / unnamed receivers (method names also used by free functions and by other structs), 0-3 top-level functions with named, grouped or unnamed parameters and results (init possibly twice), bodies of X.F() call statements on packages, receivers, parameters and local variables assigned further up, defer, assignments, unqualified calls, declarations and returns; declarations in usual or shuffled order (methods before their type) or in one type(...) group; every text is checked with go/parser. Go projects: 1-3 such files (+ go.mod), a type name declared in files of several directories, a file named *_test.go, a file with nothing but a package clause. Python modules: 0-4 imports at the top and 0-2 between or after the definitions (import a.b / as c / from x import y, z / parenthesised), 0-4 classes (bases, one-line or multi-line docstring containing the text of a class and a def, attributes, 0-4 methods, an inner class, a property with getter and setter of one name, a comment at column 0 or a line of blanks between the methods), 0-3 functions, decorators with and without arguments on all three (optionally a comment line before the def), nested defs, async def, return annotations, signatures spread over several lines, one-line defs, bodies with if/for/try/with/while blocks, three indentation styles, LF or CRLF, main guard; texts the shipped Python parser rejects are skipped and counted. Python projects: 1-3 modules named app.py / pkg/models.py / pkg/sub/views.py or setup.py / pkg/__init__.py / tests/test_views.py, optional empty package markers, a class name and a capitalised function name declared in several modules. Oracles: each struct / interface / class exactly once per declaration under its own name with its fields (name, type kind, type text), method set, decorators; each top-level function once per declaration with its parameters; each import once (source, alias); each X.F() call statement recorded as often as written; nested defs tolerated as extra entries; declarations of one name (in several files, or getter/setter, or init) are paired one-to-one with the entries of that name. Entry points: CocagoParser.ProcessString / ProcessFile, GoIdentApp.Analysis / IdentAnalysis, PythonIdentApp.Analysis, analysis.CommonAnalysis, and the binaries of analysis/golang and analysis/python (godeps.json / pydeps.json; -p, --path, default and absolute path). Sequences: go_seq uses one CocagoParser and one GoIdentApp for all files of a project and the first file again, and re-reads every earlier result at the end; one py_module case in three analyses a second module / an empty module / the same module afterwards without any reset and re-reads the first result. go_any / py_any add constructs outside the modelled subset and assert crash-freedom only. Non-trivial: Go: >= 2 type declarations of which >= 2 have methods; Python: >= 2 classes and >= 1 decorated definition; *_any: >= 2 extra constructs. Distinct = hash of the case.",
+		"type texts follow the model's own convention as pinned by the repository's golden files: element name without * or [], `func` for function types, TypeType Identify/Star/ArrayType/Function/empty; an embedded field has the empty name, like an unnamed parameter",
 		"import sources follow BuildImport: module prefix removed, / replaced by .",
-		"a deferred X.F() may be recorded once or not at all; entries for assignments, returns and unqualified calls are not judged",
+		"a deferred X.F() may be recorded once or not at all; entries for assignments, returns and unqualified calls are not judged; parameters of methods are not judged (the statement names the parameters of top-level functions)",
 		"godeps.json / pydeps.json list only top-level functions with a capitalised name (BuildMethodDs); other functions are judged on the in-process entry points only",
 		"every generated Go text passes go/parser (a rejection aborts the run as a generator bug)")
 	pbt.Register("go_file", 3000, 10000, genGoCase, checkGoCase)
 	pbt.Register("go_any", 800, 3000, genGoAny, checkGoAny)
-	pbt.Register("go_project", 300, 1500, genGoProject, checkGoProject)
+	pbt.Register("go_project", 400, 1500, genGoProject, checkGoProject)
+	pbt.Register("go_seq", 400, 1500, genGoProject, checkGoSeq)
 	pbt.Register("py_plain", 600, 2000, genPyPlain, checkPyPlain)
 	pbt.Register("py_module", 1500, 3000, genPyCase, checkPyCase)
 	pbt.Register("py_any", 500, 1500, genPyAny, checkPyAny)
-	pbt.Register("py_project", 250, 800, genPyProject, checkPyProject)
+	pbt.Register("py_project", 400, 800, genPyProject, checkPyProject)
 	pbt.Register("go_cli", 30, 60, genGoProject, checkGoCLI)
 	pbt.Register("py_cli", 30, 60, genPyProject, checkPyCLI)
 }
